@@ -14,7 +14,7 @@ import traceback
 
 import z3
 
-from . import loader, summaries
+from . import loader, summaries, models, shapes
 from .interp import Inconclusive, Unsupported, simp
 from .mirparse import MirSyntax
 
@@ -122,6 +122,10 @@ class Check:
             self.interp = loader.load(summaries.SUMMARIES, crates=crates, log=log,
                                       solver_timeout_ms=self.timeout_ms, **kw)
         self.extra.update(log)
+        self.interp.sym_value = shapes.sym_value
+        self.interp.base_read_hooks = {}
+        self.interp.deser_hooks = {}
+        self.interp.roots = []
         return self.interp
 
     def _load_known(self):
